@@ -15,14 +15,14 @@ checks = {
  "C09": ("small-scope exhaustive enumeration: segment-stack shapes x lower-level variants x bounds x iterator call programs", "4.9", "sorted-slice cursor oracle after every iterator call"),
  "C10": (G1, "4.10", "Collection.Get == Snapshot.Get == iteration for every probe key in every reached state; copied values intact after closing everything"),
  "C11": (G1, "4.11", "recursive dump (child names at every level + contents) == reference tree in every reached state and after every reopen"),
- "C12": ("exhaustive enumeration of round sequences x walk depth x revert target x continuation on the real store", "4.12", "walk == exposed history since last compaction then nil; revert == current == durable; next round builds on it"),
+ "C12": ("exhaustive enumeration of round sequences x walk depth x revert target x continuation on the real store", "4.12", "walk == exposed history since last compaction then nil; revert == current == durable (reopen and power-cut image); next round builds on it"),
  "C13": (G1, "4.13", "map lower level applying every `higher` by the documented protocol; prefix / overlay / re-offer / drained oracles in every reached state"),
  "C14": ("small-scope exhaustive enumeration: key sets x index quota x minKeyBytes x probes (in-package and public path)", "4.14", "sorted-slice model and index-vs-no-index differential"),
  "C15": (G1, "4.15", "handles keep data readable; after closing everything in every order: no descriptor, no mapping, one data file"),
  "C16": ("stateless DFS over thread interleavings (iterative preemption bounding) incl. Close, blocked writers, stalled persister", "4.16", "every fair completion returns every call; top never exceeds MaxPreMergerBatches; ErrClosed semantics"),
  "C17": ("stateless DFS over thread interleavings with the Go race detector as per-execution oracle (race-invisible scheduler hand-off, happens-before forwarding)", "4.17", "race detector report on any explored schedule"),
  "C18": ("exhaustive enumeration: directory states (all crash images + hand-listed) x options x driver sequences, ReadOnly open", "4.18", "directory fingerprint unchanged, no mutating file operation, content == writable open of a copy"),
- "C19": ("small-scope exhaustive enumeration: byte-string alphabet^2 x batch form x API variant x options through 8 fixed data-path stages", "4.19", "bytewise model comparison after each stage; exact limit errors"),
+ "C19": ("small-scope exhaustive enumeration: byte-string alphabet^2 x batch form x API variant x options through 11 fixed data-path stages, plus key sets of uneven length and a burst of batches before one merger cycle", "4.19", "bytewise model comparison after each stage; exact limit errors"),
  "C20": (G1, "4.20", "zero gauges => store snapshot / lower level == reference and reopened copy == reference in every reached state; converse within 4 alternations"),
 }
 not_applicable = []
